@@ -6,6 +6,7 @@ R05b  every term of the returned weight is read through the caller's map for the
 R05c  the internal graph's edge weights are defined (each add_edge is followed by a write of W_G[e])
 R05d  the spanner-edge -> input-edge table is complete and read with at()/find
 R05e  the exact phase is never skipped for a spanner that can contain a cycle
+R05f  the caller's output iterator is not reused after it was passed by value to something that writes through it
 R15e  BGL calls use descriptors with the graph they belong to (world discipline)
 """
 import os
@@ -14,13 +15,14 @@ from lib import env
 from . import approx
 
 TITLE = 'C05: two-world (caller graph vs internal spanner) affinity inference over the approximate algorithms.'
-RULES = {'R05a': 3, 'R05b': 4, 'R05c': 1, 'R05d': 2, 'R05e': 5, 'R15e': 10}
+RULES = {'R05a': 3, 'R05b': 4, 'R05c': 1, 'R05d': 2, 'R05e': 5, 'R05f': 2, 'R15e': 10}
 DOCS = {
     'R05a': 'no internal descriptor escapes through the caller\'s iterator',
     'R05b': 'returned weight is accumulated from the caller\'s weight map for the emitted edges',
     'R05c': 'spanner edges carry the input weights',
     'R05d': 'translation table complete, read with at()/find',
     'R05e': 'exact phase skipped only for provably acyclic graphs',
+    'R05f': 'the caller\'s output iterator is never reused after being handed away by value',
     'R15e': 'same-world discipline of every BGL call in the approximate algorithms',
     'R06a': 'k = 0 rejected before anything is emitted',
     'R06b': 'closing path = Dijkstra on the weighted spanner',
